@@ -84,7 +84,9 @@ def run(rep, tier, build, replay=None):
                 jobs.append({'kind': 'load', 'text': t, 'try_add': True})
                 meta.append(('mutant', d, res))
     # scan-specific documents: attribute values that need decoding
-    for label, ver in [('a &amp; b', '1&amp;2'), ("it's &quot;q&quot;", '1.0'), ('x &#65; &#x42;', '2'), ('a > b', '3')]:
+    for label, ver in [('a &amp; b', '1&amp;2'), ("it's &quot;q&quot;", '1.0'), ('x &#65; &#x42;', '2'), ('a > b', '3'),
+                       # references that HTML decoders remap or drop but XML keeps: C1 controls, DEL, noncharacters
+                       ('Nouns &#150; Verbs &#146; &#x85;', '4'), ('del &#127; nonchar &#xFDD0; &#x9F;', '5&#x96;')]:
         text = lmfgen.to_xml({'lmf_version': '1.1', 'lexicons': [lmfgen.simple_lexicon('sc', 'VV', label='LL')]})
         text = text.replace('label="LL"', 'label="%s"' % label).replace('version="VV"', "version='%s'" % ver)
         jobs.append({'kind': 'load', 'text': text, 'try_add': True})
